@@ -175,6 +175,10 @@ var c15Ranges = core.Mon(c15, "ranges-and-reparse", func(w *core.W, c *ParseCase
 		}
 		for _, id := range ids {
 			p := id.Pos()
+			if p < 0 || id.End() < p || id.End() > len(c.Src) {
+				w.Violation("ranges-and-reparse", "C15/range", c, "a name's range within the text", fmt.Sprintf("[%d,%d) of %d bytes", id.Pos(), id.End(), len(c.Src)), "name "+id.Value+" in "+c.Quoted())
+				return
+			}
 			for p < id.End() {
 				r, sz := utf8.DecodeRune(c.Src[p:])
 				if !(ref.IsSpace(r) || ref.IsLineBreak(r) || ref.IsSpaceOpen(r)) {
@@ -416,6 +420,12 @@ func runC15(w *core.W) {
 		c := &ParseCase{Src: src, Gen: genName}
 		c15Ranges(w, c)
 		w.Count("parse_cases")
+		if w.Counter("parse_cases")%6 == 0 && len(src) < 60000 {
+			// the same text behind a byte order mark (white space like any other: every offset counts from the first byte)
+			pre := []string{"\ufeff", "\ufeff\n", " \ufeff", "\ufeff\ufeff\t"}[w.Counter("parse_cases")/6%4]
+			c15Ranges(w, &ParseCase{Src: append([]byte(pre), src...), Gen: genName + "+bom"})
+			w.Count("bom_prefixed_cases")
+		}
 		if w.Counter("parse_cases")%2999 == 1 {
 			w.Sample(genName, c.Quoted())
 		}
